@@ -19,8 +19,11 @@ EXPLANATION = (
     "theta - pi/2, cos(defect) vs cos(radians(defect))) are definite "
     "mismatches, returned values carry the contracted unit. R4: the psf "
     "look-ups return the contracted (width, width, angle) kinds on both the "
-    "header-beam and the psf-map branch. The spherical formulae themselves "
-    "are decided under C17. Round-trip tolerances are not decided.")
+    "header-beam and the psf-map branch. R3: the great-circle distance, "
+    "bearing and translation the transforms are built on are identically "
+    "the reference spherical formulae (sympy canonical forms, every "
+    "np.where selection branch; same engine as C17). Round-trip tolerances "
+    "are not decided.")
 ASSUMPTIONS = ["astropy WCS all_pix2world/all_world2pix semantics",
                "contracts table (aegean_sa/units.py)"]
 
@@ -121,6 +124,9 @@ def run(ctx):
                     kinds={"call", "return", "store", "sink"},
                     what="contract sites in the WCSHelper transforms",
                     floor=25)
+    # ---------------------------------------------------------------- R3
+    from .c17 import formulae
+    formulae(ctx, prog, {"R1": "C16-R3", "R2": "C16-R3", "R3": "C16-R3"})
     # ---------------------------------------------------------------- R4
     ctx.rule("C16-R4", "psf look-ups: every return of get_psf_sky2sky / "
              "get_psf_sky2pix / get_psf_pix2pix yields (a, b, pa)")
